@@ -344,10 +344,16 @@ def run_schedule(spec, schedule, names=None):
     chain = chain_ref(spec)
     info = {'dts': [], 'starts': {}, 'runs': [], 'segments': [], 'error': None}
     locked_carry = False
+    hand_duty = None
     for op in schedule:
         if op[0] == 'run':
             _, dt, T, duty, stop = (list(op) + [None, None])[:5]
             before = len(m.pt.time)
+            if before and hand_duty is not None:
+                # the duty cycle was set by hand since the last recorded instant: it is the one in force when the first
+                # instant of this continuation is computed
+                info.setdefault('duty_overrides', {})[before] = hand_duty[0]
+            hand_duty = None
             if before == 0:
                 motor = m.elements[0]
                 w_last = si.q_si(m.elements[-1].angular_speed)
@@ -409,6 +415,7 @@ def run_schedule(spec, schedule, names=None):
             last.angular_speed = Q(AngularSpeed, op[1]['w'])
         elif op[0] == 'setpwm':
             m.elements[0].pwm = op[1]
+            hand_duty = (op[1],)
     return m, info
 
 
